@@ -1545,7 +1545,7 @@ compute_general_stat_site_result(tsk_site_t *site, double *state, tsk_size_t sta
     int ret = 0;
     tsk_size_t k;
     tsk_size_t allele, num_alleles;
-    double *allele_states;
+    double *allele_states = NULL;
     double *result_tmp = tsk_calloc(result_dim, sizeof(*result_tmp));
 
     if (result_tmp == NULL) {
@@ -3325,7 +3325,7 @@ tsk_treeseq_update_site_afs(const tsk_treeseq_t *self, const tsk_site_t *site,
     int ret = 0;
     tsk_size_t afs_size;
     tsk_size_t k, allele, num_alleles, all_samples;
-    double increment, *afs, *allele_counts, *allele_count;
+    double increment, *afs, *allele_counts = NULL, *allele_count;
     tsk_size_t *coordinate = tsk_malloc(num_sample_sets * sizeof(*coordinate));
     bool polarised = !!(options & TSK_STAT_POLARISED);
     const tsk_size_t K = num_sample_sets + 1;
